@@ -738,3 +738,20 @@ def c17_heavy_dups(seed, sizes=(100000,), copies=(2000,)):
                           threads=r.choice([None, 1, 4]))
                 out.append(episode([b, {"op": "len"}], kt="usize", kf=RANGE0, src="dups", budget_ms=120000))
     return out
+
+
+def c17_coarse_sig_dups(seed):
+    """a user-defined signature function whose second word takes seven values only (signatures are still distinct):
+    a duplicated key whose two copies are far apart in the input, with keys of the same coarse class in between,
+    single store bucket (exact hint), logics whose local signature is the full signature; duplicate detection
+    must not depend on equal signatures being adjacent for any particular word order"""
+    r = random.Random(seed)
+    out = []
+    for combo in [("noshards", 2, "func", "bfv", "usize"), ("fullsigs", 2, "func", "bfv", "usize"),
+                  ("noshards", 2, "filter", "box", "u8"), ("fullsigs", 2, "filter", "box", "u8")]:
+        for n in (50, 1000, 20000):
+            at = n - 1 - r.randrange(n // 10)
+            of = r.randrange(n // 10)
+            b = build(n, combo, subst=[[at, of]], check_dups=True, hint=n, offline=r.random() < 0.3, v=vals(a=0, c=3, m=8))
+            out.append(episode([b, {"op": "len"}], kt="coarse", kf=RANGE0, src="dups", budget_ms=60000))
+    return out
